@@ -154,6 +154,10 @@ impl MModel {
 #[derive(Clone, Copy, Debug)]
 pub struct ModelKnobs {
     pub max_window: u8,
+    pub max_type_window: u8,
+    /// restrict patterns to the low-code-point core alphabet (daachorse's charwise builder
+    /// allocates tables proportional to the largest code point; that matters under Miri)
+    pub core_only: bool,
     pub allow_big_windows: bool,
     pub max_entries: usize,
     pub want_tags: Option<bool>,
@@ -161,7 +165,7 @@ pub struct ModelKnobs {
 
 impl Default for ModelKnobs {
     fn default() -> Self {
-        Self { max_window: 4, allow_big_windows: true, max_entries: 8, want_tags: None }
+        Self { max_window: 4, max_type_window: 12, core_only: false, allow_big_windows: true, max_entries: 8, want_tags: None }
     }
 }
 
@@ -183,6 +187,14 @@ fn gen_window(rng: &mut Rng, k: &ModelKnobs, is_type: bool) -> u8 {
     }
 }
 
+fn pat(rng: &mut Rng, n: usize, k: &ModelKnobs) -> String {
+    if k.core_only {
+        (0..n).map(|_| *rng.pick(&['a', 'b', '1', '2', 'z', '.'])).collect()
+    } else {
+        gen::gen_pattern(rng, n)
+    }
+}
+
 fn gen_weights(rng: &mut Rng, n: usize) -> Vec<i32> {
     (0..n)
         .map(|_| match rng.below(10) {
@@ -195,7 +207,7 @@ fn gen_weights(rng: &mut Rng, n: usize) -> Vec<i32> {
 
 pub fn gen_model(rng: &mut Rng, k: &ModelKnobs) -> MModel {
     let cw = gen_window(rng, k, false);
-    let tw = gen_window(rng, k, true);
+    let tw = gen_window(rng, k, true).min(k.max_type_window);
     let cwu = usize::from(cw);
     let twu = usize::from(tw);
     let mut m = MModel {
@@ -213,7 +225,7 @@ pub fn gen_model(rng: &mut Rng, k: &ModelKnobs) -> MModel {
     for _ in 0..n_char {
         let maxn = (2 * cwu.max(1)).min(4);
         let n = rng.range(1, maxn);
-        let s = gen::gen_pattern(rng, n);
+        let s = pat(rng, n, k);
         if !seen.insert(s.clone()) {
             continue;
         }
@@ -232,13 +244,13 @@ pub fn gen_model(rng: &mut Rng, k: &ModelKnobs) -> MModel {
             cs[start..].iter().collect::<String>()
         } else {
             let n = rng.range(1, 4);
-            gen::gen_pattern(rng, n)
+            pat(rng, n, k)
         };
         if !seen.insert(w.clone()) {
             continue;
         }
         let n = w.chars().count();
-        let comment = if rng.chance(1, 4) { gen::gen_pattern(rng, 2) } else { String::new() };
+        let comment = if rng.chance(1, 4) { pat(rng, 2, k) } else { String::new() };
         m.dict_model.push(MWord { word: w, weights: gen_weights(rng, n + 1), comment });
     }
     // type n-grams
@@ -262,7 +274,7 @@ pub fn gen_model(rng: &mut Rng, k: &ModelKnobs) -> MModel {
         let mut seen = std::collections::BTreeSet::new();
         for _ in 0..n_tm {
             let n = rng.range(1, 2);
-            let token = gen::gen_pattern(rng, n);
+            let token = pat(rng, n, k);
             if !seen.insert(token.clone()) {
                 continue;
             }
@@ -290,7 +302,7 @@ pub fn gen_model(rng: &mut Rng, k: &ModelKnobs) -> MModel {
             let mut seen_c = std::collections::BTreeSet::new();
             for _ in 0..rng.range(0, 3) {
                 let n = rng.range(1, 2);
-                let g = gen::gen_pattern(rng, n);
+                let g = pat(rng, n, k);
                 if !seen_c.insert(g.clone()) {
                     continue;
                 }
@@ -326,6 +338,23 @@ pub fn gen_model(rng: &mut Rng, k: &ModelKnobs) -> MModel {
                 tm.type_ngram_model.push(MTagNgram { ngram: g, weights: ws });
             }
             m.tag_models.push(tm);
+        }
+    }
+    if k.core_only && rng.chance(3, 5) {
+        // thread tier: a tag-dense model. A large bias makes every character its own token and
+        // the tokens "a" and "b" carry several candidates with different scores, so that nearly
+        // every fill_tags call on a text over {a, b, ...} does real, token-specific work.
+        m.bias = 1000 + rng.irange(0, 50);
+        m.tag_models.retain(|t| t.token != "a" && t.token != "b");
+        for (tok, sign) in [("a", 1), ("b", -1)] {
+            let n_cat = rng.range(1, 2);
+            let mut tags = vec![];
+            for c in 0..n_cat {
+                tags.push(vec![format!("{tok}{c}x"), format!("{tok}{c}y"), format!("{tok}{c}z")][..rng.range(2, 3)].to_vec());
+            }
+            let need: usize = tags.iter().map(|c| c.len()).sum();
+            let bias: Vec<i32> = (0..need).map(|i| sign * (i as i32 * 7 - 5) + rng.irange(-2, 2)).collect();
+            m.tag_models.push(MTagModel { token: tok.to_string(), tags, char_ngram_model: vec![], type_ngram_model: vec![], bias });
         }
     }
     m
